@@ -87,7 +87,10 @@ type Out struct {
 	CapBytes uintptr
 	Live     []int // the delivered slice itself (kept referenced to the end)
 	Scribble bool
-	HoldNs   int64
+	// RecvEnter: when the consumer entered the receive that returned this slice (-1: taken by a
+	// non-blocking drain)
+	RecvEnter int64
+	HoldNs    int64
 	Released bool // no-copy: the consumer has signalled release (the buffer is the discipline's again)
 }
 
@@ -135,7 +138,8 @@ func (s Script) AlwaysReady() bool {
 }
 
 type sut struct {
-	out     <-chan []int
+	out     <-chan []int        // as returned by the first call of the accessor
+	outFn   func() <-chan []int // the accessor itself: the consumer asks again before every receive
 	release func(done <-chan struct{})
 	stop    func()
 	cancel  func()
@@ -148,13 +152,13 @@ func mk(s Script, in chan int, ins chan []int) (*sut, error) {
 		if err != nil {
 			return nil, err
 		}
-		return &sut{out: d.Output(), release: func(<-chan struct{}) { d.Release() }}, nil
+		return &sut{out: d.Output(), outFn: d.Output, release: func(<-chan struct{}) { d.Release() }}, nil
 	case KindV2Unite:
 		d, err := unite.New(unite.Opts[int]{Input: ins, JoinSize: s.J, NoCopy: s.NoCopy, Timeout: time.Duration(s.Timeout), TimeoutInaccuracy: s.Inacc})
 		if err != nil {
 			return nil, err
 		}
-		return &sut{out: d.Output(), release: func(<-chan struct{}) { d.Release() }}, nil
+		return &sut{out: d.Output(), outFn: d.Output, release: func(<-chan struct{}) { d.Release() }}, nil
 	case KindV1Join:
 		ctx, cancel := context.WithCancel(context.Background())
 		var released chan struct{}
@@ -168,7 +172,7 @@ func mk(s Script, in chan int, ins chan []int) (*sut, error) {
 			cancel()
 			return nil, err
 		}
-		return &sut{out: d.Output(), stop: d.Stop, cancel: cancel, release: func(done <-chan struct{}) {
+		return &sut{out: d.Output(), outFn: d.Output, stop: d.Stop, cancel: cancel, release: func(done <-chan struct{}) {
 			select {
 			case released <- struct{}{}:
 			case <-done:
@@ -405,8 +409,11 @@ func execute1(t *testing.T, s Script, leakScan bool, budget time.Duration) Trace
 			}()
 		}
 
-		record := func(sl []int) *Out {
-			o := Out{At: now(), Snap: append([]int(nil), sl...), Live: sl}
+		record := func(sl []int, enter ...int64) *Out {
+			o := Out{At: now(), Snap: append([]int(nil), sl...), Live: sl, RecvEnter: -1}
+			if len(enter) > 0 {
+				o.RecvEnter = enter[0]
+			}
 			if cap(sl) > 0 {
 				o.Ptr = uintptr(unsafe.Pointer(unsafe.SliceData(sl)))
 				o.CapBytes = uintptr(cap(sl)) * unsafe.Sizeof(int(0))
@@ -431,6 +438,7 @@ func execute1(t *testing.T, s Script, leakScan bool, budget time.Duration) Trace
 			}
 			var sl []int
 			var ok bool
+			enter := int64(-1)
 			if stopped() {
 				// Stop() has returned: the output must already be closed, so a receive never blocks
 				select {
@@ -445,8 +453,9 @@ func execute1(t *testing.T, s Script, leakScan bool, budget time.Duration) Trace
 			} else {
 				mu.Lock()
 				tr.RecvEnterAt = now()
+				enter = tr.RecvEnterAt
 				mu.Unlock()
-				sl, ok = <-d.out
+				sl, ok = <-d.outFn()
 				if !ok {
 					tr.ClosedBlocking = true
 				}
@@ -466,7 +475,7 @@ func execute1(t *testing.T, s Script, leakScan bool, budget time.Duration) Trace
 				break
 			}
 			idx := len(tr.Outs)
-			record(sl)
+			record(sl, enter)
 			if s.Stop != nil && s.Stop.AfterRecv == k && d.stop != nil && !stopped() {
 				// stop while this delivery is held and not released
 				if c.Hold > 0 {
